@@ -29,6 +29,7 @@ pub enum FileDoc {
     Dir,
     Doc(serde_yaml::Value),
     Raw(String),
+    Bytes(Vec<u8>),
     Symlink(String),
 }
 
@@ -40,8 +41,17 @@ fn p_files(t: &mut Toks) -> Result<Vec<(Vec<String>, FileDoc)>, String> {
         // peek
         let save = t.clone_pos();
         let tok = t.next()?;
-        if tok == "X" {
+        if tok == "V" {
+            // entry seen through a symlinked directory: exists on disk already, model only
+            let _ = p_yaml(t)?;
+        } else if tok == "X" {
             out.push((path, FileDoc::Dir));
+        } else if let Some(h) = tok.strip_prefix("B") {
+            let mut bytes = vec![];
+            for i in (0..h.len()).step_by(2) {
+                bytes.push(u8::from_str_radix(&h[i..i + 2], 16).map_err(|e| e.to_string())?);
+            }
+            out.push((path, FileDoc::Bytes(bytes)));
         } else if let Some(h) = tok.strip_prefix("R") {
             out.push((path, FileDoc::Raw(crate::unhex(h)?)));
         } else if let Some(h) = tok.strip_prefix("Y") {
@@ -67,6 +77,7 @@ pub fn write_tree(root: &Path, files: &[(Vec<String>, FileDoc)]) -> Result<(), S
         match doc {
             FileDoc::Dir => std::fs::create_dir_all(&p).map_err(|e| e.to_string())?,
             FileDoc::Raw(s) => std::fs::write(&p, s).map_err(|e| e.to_string())?,
+            FileDoc::Bytes(b) => std::fs::write(&p, b).map_err(|e| e.to_string())?,
             FileDoc::Symlink(target) => {
                 std::os::unix::fs::symlink(target, &p).map_err(|e| e.to_string())?
             }
@@ -193,6 +204,36 @@ pub fn run(mode: &str, t: &mut Toks) -> Result<String, String> {
                                     &case.nodes_root
                                 )
                             ),
+                            Err(e) => err_line(&format!("{e}")),
+                        })
+                    }
+                    "fault" => {
+                        // apply a file-system fault after construction, then render
+                        let kind = t.next()?.to_string();
+                        let rel = t.strings()?;
+                        let name = t.string()?;
+                        let mut p = case.dir.clone();
+                        for s in &rel {
+                            p.push(s);
+                        }
+                        match kind.as_str() {
+                            "delete" => {
+                                let _ = std::fs::remove_file(&p);
+                            }
+                            "todir" => {
+                                let _ = std::fs::remove_file(&p);
+                                let _ = std::fs::create_dir_all(&p);
+                            }
+                            "garbage" => {
+                                let _ = std::fs::write(&p, [0xffu8, 0xfe, 0x00, 0x80, b':', b'[']);
+                            }
+                            "truncate" => {
+                                let _ = std::fs::write(&p, b"parameters:\n  a: [1, 2\n");
+                            }
+                            _ => return Err(format!("bad fault {kind}")),
+                        }
+                        Ok(match r.render_node(&name) {
+                            Ok(_) => "ok rendered".to_string(),
                             Err(e) => err_line(&format!("{e}")),
                         })
                     }
